@@ -66,7 +66,7 @@ ASSUMPTIONS = [
     "median: kernel sizes odd (enumerated set below), array values and constant pad values in {0,1}, every pad width >= (k-1)/2 on its axis (otherwise jax.scipy.signal.convolve zero-fills beyond the configured padding), padded extent >= kernel size",
     "median: padding modes 'constant' and 'edge' (the modes of the repository's own configurations); pad widths are concrete and enumerated: uniform 1, 2, 3, 10 and a mixed pattern; kernels (1,1,1),(3,1,1),(1,3,1),(1,1,3),(3,3,1),(3,3,3),(5,3,1),(1,5,5),(5,5,5) (thorough adds (7,7,7),(3,5,7))",
     "jax.scipy.signal.convolve(mode='same', method='direct') = textbook zero-filled convolution (vc/signal.py; cross-checked against real JAX inside this check); jnp.round = some integer within 1/2 (no tie rule assumed)",
-    "pillars: isotropic materials; column heights L <= 4 (thorough 5) and M <= 3 materials (thorough 4) for the symbolic nearest_index proof (euclidean metric only for tables of at most 16 allowed columns), L <= 5 (thorough 6), M <= 4 for the allowed-column enumeration; every background index and both single_polymer_columns settings; axes 0,1,2; both distance metrics",
+    "pillars: isotropic materials; column heights L <= 4 (thorough 5) and M <= 3 materials (thorough 4) for the symbolic nearest_index proof (tables of at most 32 allowed columns; euclidean metric only for tables of at most 16), L <= 5 (thorough 6), M <= 4 for the allowed-column enumeration; every background index and both single_polymer_columns settings; axes 0,1,2; both distance metrics",
     "euclidean metric: sqrt is an uninterpreted strictly increasing function on non-negative reals",
 ]
 MIN_OBLIGATIONS = {"quick": 3000, "thorough": 3000}
@@ -834,11 +834,13 @@ def tasks(tier, seed):
             if M == 2 and single:
                 continue  # identical table
             for metric in metrics:
-                if metric == "euclidean" and len(allowed_columns_spec(L, M, 0, single)) > 16:
-                    continue  # nonlinear terms for every row pair: beyond the per-task budget (listed bound)
-                axes = (0, 1, 2) if (L, M) in ((2, 2), (3, 3)) or thorough else (rnd.randrange(3),)
+                nrows = len(allowed_columns_spec(L, M, 0, single))
+                if (metric == "euclidean" and nrows > 16) or nrows > 32:
+                    continue  # beyond the per-task budget (bound listed in ASSUMPTIONS)
+                small = len(allowed_columns_spec(L, M, 0, single)) <= 16
+                axes = (0, 1, 2) if (L, M) in ((2, 2), (3, 3)) or (thorough and small) else (rnd.randrange(3),)
                 for axis in axes:
-                    bgs = range(M) if (L, M) == (2, 3) or thorough else (rnd.randrange(M),)
+                    bgs = range(M) if (L, M) == (2, 3) or (thorough and small) else (rnd.randrange(M),)
                     for bg in bgs:
                         near.append((L, M, bg, single, axis, metric))
     # group light configurations; heavy ones (many rows, nonlinear euclidean terms) get their own task because
